@@ -19,6 +19,7 @@ echo "suite_green=$SUITE demo_patched_exit=$DP demo_original_exit=$DO"
 for c in $CHECKS; do
   ( cd /verif && VERIF_REPO=$WT python3 tools/check.py $c --tier quick 2>&1 | grep -E "VIOLATION|KNOWN-FINDING|quick:|PROOF|HARNESS" | cut -c1-300 ) > $OUT/check_$c.log
   V=$(grep -c "^VIOLATION" $OUT/check_$c.log); NF=$(grep -c "no-failing-input-found" $OUT/check_$c.log)
+  grep -q "quick:" $OUT/check_$c.log || echo "check $c: DID NOT RUN TO ITS SUMMARY LINE (crash of the tooling?)" | tee -a $OUT/checks.log
   echo "check $c: violations=$V no_failing_input=$NF" | tee -a $OUT/checks.log
 done
 git -C /repo worktree remove --force $WT
